@@ -6,7 +6,7 @@
 //	-mode cli    exhaustive small histories: a file of n<=4 statements fails at
 //	             statement k+1 (k applied), is edited (applied part / tail only /
 //	             not at all) and re-hashed with `migrate hash`, then apply, apply,
-//	             apply, status.
+//	             status.
 //	-mode fault  the same histories while the database driver fails the i-th
 //	             SELECT or the j-th upsert of atlas_schema_revisions (scheme
 //	             sqlitefault:// of the verif build, cmd/atlas/verif_sqlfault.go),
@@ -160,8 +160,8 @@ type runObs struct {
 	exit    int
 	delta   []int // journal rows added (and still there) after the run
 	rows    []rowObs
-	faultOn bool     // the injected fault fired
-	bits    string   // fault stream seen by the storage/engine calls (fault stage)
+	faultOn bool   // the injected fault fired
+	bits    string // fault stream seen by the storage/engine calls (fault stage)
 	stderr  string
 	sqllog  []string // classified calls (fault stage)
 }
@@ -335,7 +335,7 @@ func apply(tmp, db, mdir, mode, fault string, useFault bool) (runObs, error) {
 
 type result struct {
 	h      hist
-	runs   []runObs // 4 applies
+	runs   []runObs // the applies: first run, resuming run, one (cli) or two (fault) more
 	status string   // OK | PENDING | err
 	toks   []string
 	err    error
@@ -452,8 +452,12 @@ func runHist(h hist, useFault bool) (res result) {
 		res.err = fmt.Errorf("migrate hash failed: %s", hr.Stderr)
 		return
 	}
-	// runs 2..4
-	for i := 2; i <= 4; i++ {
+	// the resuming run and the runs after it (cli: one more; fault: two more)
+	last := 3
+	if useFault {
+		last = 4
+	}
+	for i := 2; i <= last; i++ {
 		f := ""
 		if i == 2 {
 			f = h.fault2
@@ -540,7 +544,7 @@ func oracle(w *out.W, r result) {
 		// the setup: run 1 stops at statement k+1 with k statements applied and recorded
 		row, ok := r1.row("1")
 		if r1.outcome != "stmterr" || !eqInts(r1.delta, h.old[:h.k]) || !ok || row.applied != h.k || row.total != h.n || row.nhashes != h.k || !row.err {
-			bad("setup", fmt.Sprintf("first run: outcome=%s journal=%v table=[%s], want stmterr, %v, 1:%d:%d:%d:1", r1.outcome, r1.delta, r1.table(), h.old[:h.k], h.k, h.n, h.k))
+			bad("first-run-not-recorded", fmt.Sprintf("first run: outcome=%s journal=%v table=[%s], want stmterr, %v, 1:%d:%d:%d:1", r1.outcome, r1.delta, r1.table(), h.old[:h.k], h.k, h.n, h.k))
 			return
 		}
 	} else if !failed(r1) && r1.faultOn {
@@ -568,7 +572,7 @@ func oracle(w *out.W, r result) {
 	if changed {
 		// refused; nothing executed; the stored revision is what it was -- in every run, with or without fault
 		prev := r1
-		for i := 1; i <= 3; i++ {
+		for i := 1; i < len(r.runs); i++ {
 			o := r.runs[i]
 			if len(o.delta) != 0 {
 				bad("executed-on-refuse", fmt.Sprintf("apply run %d executed %v although the applied part (first %d statements) was edited", i+1, o.delta, kp))
@@ -666,7 +670,7 @@ func oracle(w *out.W, r result) {
 			return
 		}
 	}
-	for i := settled; i <= 3; i++ {
+	for i := settled; i < len(r.runs); i++ {
 		o := r.runs[i]
 		if o.outcome != "nopending" || len(o.delta) != 0 {
 			bad("not-settled", fmt.Sprintf("apply run %d after a completed resume ended with %s and executed %v, want nothing to do", i+1, o.outcome, o.delta))
@@ -678,7 +682,7 @@ func oracle(w *out.W, r result) {
 		}
 	}
 	if r.status != "OK" {
-		bad("status-not-ok", fmt.Sprintf("migrate status says %s after the completed resume, revisions [%s]", r.status, r.runs[3].table()))
+		bad("status-not-ok", fmt.Sprintf("migrate status says %s after the completed resume, revisions [%s]", r.status, r.runs[len(r.runs)-1].table()))
 	}
 }
 
@@ -729,6 +733,9 @@ func genCLI(tier string) []hist {
 						if second == 1 && (n > 3 || mode == "file" && tier != "thorough" && n > 2) {
 							continue
 						}
+						if tier != "thorough" && n == 4 && mode == "file" && k%2 == 0 {
+							continue // quick: tx-mode file on 4-statement files only for k = 1, 3
+						}
 						hs = append(hs, hist{n: n, k: k, old: seq(n), new: e.res, edit: e.kind, mode2: mode, second: second == 1})
 					}
 				}
@@ -771,17 +778,28 @@ func genFault(tier string) []hist {
 						if second == 1 && !(n == 2 && k == 1 && mode == "none" || tier == "thorough" && n <= 3) {
 							continue
 						}
+						prefixEdit := strings.HasPrefix(e.kind, "prefix-") && k >= 1
+						if tier != "thorough" && mode == "file" && prefixEdit && e.kind != "prefix-change@0" {
+							continue // a refused run does the same under both modes: quick keeps one prefix edit for tx-mode file
+						}
 						// a fault at every read and every write of the resuming run
 						for i := 1; i <= 3+second; i++ {
+							if tier != "thorough" && i <= 2 && !(e.kind == "none" || e.kind == "prefix-change@0" || e.kind == fmt.Sprintf("tail-change@%d", k)) {
+								continue // the two ReadRevisions calls precede Execute: quick keeps them for three edits
+							}
 							hs = append(hs, hist{n: n, k: k, old: seq(n), new: e.res, edit: e.kind, mode2: mode, second: second == 1, fault2: fmt.Sprintf("r@%d", i)})
 						}
-						for j := 1; j <= len(e.res)-k+2+2*second; j++ {
+						nw := len(e.res) - k + 2 + 2*second
+						if prefixEdit {
+							nw = 2 // a refused run writes the revision twice (mark as started, deferred)
+						}
+						for j := 1; j <= nw; j++ {
 							hs = append(hs, hist{n: n, k: k, old: seq(n), new: e.res, edit: e.kind, mode2: mode, second: second == 1, fault2: fmt.Sprintf("w@%d", j)})
 						}
 					}
 				}
 				// a fault at every read and every write of the first run
-				if e.kind == "none" || e.kind == "prefix-change@0" || e.kind == fmt.Sprintf("tail-insert@%d", n) || e.kind == fmt.Sprintf("tail-change@%d", k) || tier == "thorough" {
+				if e.kind == "none" || e.kind == "prefix-change@0" || e.kind == fmt.Sprintf("tail-insert@%d", n) || tier == "thorough" {
 					for i := 1; i <= 3; i++ {
 						hs = append(hs, hist{n: n, k: k, old: seq(n), new: e.res, edit: e.kind, mode2: "none", fault1: fmt.Sprintf("r@%d", i)})
 					}
@@ -812,7 +830,7 @@ func main() {
 	switch *mode {
 	case "cli":
 		hs = genCLI(*tier)
-		w.Rule = "exhaustive: file of n=1..4 distinct statements x first run fails at statement k+1 (k=0..n-1, tx-mode none) x every edit (none; change/delete/insert/swap at every index, truncate to every length -- classified prefix (index < k) or tail) x tx-mode of the following runs {none,file} x {no, one} following file; history = apply, edit + `migrate hash`, apply, apply, apply, status on a real SQLite file through the real binary. Non-trivial = k>=1 and the file was edited (the stored partial hashes decide); distinct by (n,k,new,mode,second)"
+		w.Rule = "exhaustive: file of n=1..4 distinct statements x first run fails at statement k+1 (k=0..n-1, tx-mode none) x every edit (none; change/delete/insert/swap at every index, truncate to every length -- classified prefix (index < k) or tail) x tx-mode of the following runs {none,file} x {no, one} following file; history = apply, edit + `migrate hash`, apply, apply, status on a real SQLite file through the real binary. Non-trivial = k>=1 and the file was edited (the stored partial hashes decide); distinct by (n,k,new,mode,second)"
 	case "fault":
 		hs = genFault(*tier)
 		useFault = true
